@@ -81,13 +81,9 @@ def Store.getInt (s : Store) (k : Bytes) : Option Int :=
 /-- `StorageExt::get_time`. -/
 def Store.getTime (s : Store) (k : Bytes) : Option Int := (s.getInt k).map Time.fromMicros
 
-def setAssoc {β} (k : Bytes) (v : β) : List (Bytes × β) → List (Bytes × β)
-  | [] => [(k, v)]
-  | (k', v') :: rest => if k' = k then (k, v) :: rest else (k', v') :: setAssoc k v rest
+def eraseAssoc {β} (k : Bytes) (l : List (Bytes × β)) : List (Bytes × β) := l.filter fun kv => kv.1 ≠ k
 
-def eraseAssoc {β} (k : Bytes) : List (Bytes × β) → List (Bytes × β)
-  | [] => []
-  | (k', v') :: rest => if k' = k then rest else (k', v') :: eraseAssoc k rest
+def setAssoc {β} (k : Bytes) (v : β) (l : List (Bytes × β)) : List (Bytes × β) := (k, v) :: eraseAssoc k l
 
 /-- Apply the pending writes, oldest first. -/
 def applyPending (committed : List (Bytes × SVal)) : List (Bytes × Option SVal) → List (Bytes × SVal)
